@@ -3,8 +3,8 @@
 (* All construction orders (without repetition) of the instance templates  *)
 (* up to length RG_MaxLen.  Each step records what the model predicts for  *)
 (* the template just constructed (leaves of flatten(), verdict against the *)
-(* oracle, registry rows of the classes involved); the longest orders are  *)
-(* printed for replay in fresh interpreters.  `Bad` lists, for the state   *)
+(* oracle, registry rows of the classes involved); every order is printed  *)
+(* for replay in fresh interpreters.         `Bad` lists, for the state   *)
 (* reached, the templates for which the property fails if built next.      *)
 (* HistoryIndependent (module Registry) is the property as an invariant;   *)
 (* on a tree with known first-assignment defects it is evaluated into the  *)
@@ -36,7 +36,7 @@ MCSpec == MCInit /\ [][MCNext]_<<dyn, born, hist, pred>>
 
 Bad == {t \in 1..NT: (\A j \in 1..Len(hist): hist[j] # t) /\ Probe(t) # Oracle(t)}
 
-Emit == (Len(hist) = RG_MaxLen \/ Len(hist) = NT) =>
+Emit == (Len(hist) >= 1) =>
             PrintT(ToJson([h |-> [j \in 1..Len(hist) |-> RG_Templates[hist[j]].name],
                            pred |-> pred,
                            bad |-> {RG_Templates[t].name: t \in Bad}]))
